@@ -88,19 +88,20 @@ var errHang = errors.New("watchdog expired")
 
 // request configuration (from the `new` op)
 type reqCfg struct {
-	k      int    // logical request number (unique per `new` op)
-	id     int    // request-id index (== k unless the script re-uses a live id)
-	peer   int    // sending peer
-	pri    int    // priority
-	hook   byte   // a A r R e E p P   (capital = with extension data)
-	n      int    // chain length
-	miss   int    // index of the block missing from the store, -1 none
-	bh     string // block hook plan, one letter per block: o x p e k
-	blkLen int    // payload bytes per block
-	root   cid.Cid
-	cids   []cid.Cid
-	data   [][]byte
-	hooked int // number of block hook calls so far (for the plan)
+	k          int    // logical request number (unique per `new` op)
+	id         int    // request-id index (== k unless the script re-uses a live id)
+	peer       int    // sending peer
+	pri        int    // priority
+	hook       byte   // a A r R e E p P   (capital = with extension data)
+	n          int    // chain length
+	miss       int    // index of the block missing from the store, -1 none
+	bh         string // block hook plan, one letter per block: o x p e k
+	parkFinish bool   // plan contained 'F': park the executor before FinishTask
+	blkLen     int    // payload bytes per block
+	root       cid.Cid
+	cids       []cid.Cid
+	data       [][]byte
+	hooked     int // number of block hook calls so far (for the plan)
 }
 
 type event struct {
@@ -116,7 +117,7 @@ type wire struct {
 
 // progress notifications from goroutines running real code to the script interpreter
 type note struct {
-	kind string // loader hook done blocked sendmsg onclose api
+	kind string  // loader hook done blocked sendmsg onclose api
 	wk   *worker // the worker the note is about (loader hook done; blocked: nil = manager)
 	gid  int64
 	p    int
@@ -183,18 +184,18 @@ type engine struct {
 	qe    *queryexecutor.QueryExecutor
 	conn  *connRec
 
-	mu      sync.Mutex
-	ids     []graphsync.RequestID // id index -> request id
-	idOf    map[graphsync.RequestID]int
-	cfgs    []*reqCfg
-	byRoot  map[cid.Cid]*reqCfg
-	byCid   map[cid.Cid][2]int // block cid -> (k, idx)
-	events  []event
-	next    map[int]*messagequeue.Builder // accumulating builder per peer (last seen)
-	inflt   map[int]*messagequeue.Builder // builder of the message parked in SendMsg
-	infltW  map[int]*wire
-	primed  map[int]bool // in-flight message carries a primer request
-	workers []*worker
+	mu       sync.Mutex
+	ids      []graphsync.RequestID // id index -> request id
+	idOf     map[graphsync.RequestID]int
+	cfgs     []*reqCfg
+	byRoot   map[cid.Cid]*reqCfg
+	byCid    map[cid.Cid][2]int // block cid -> (k, idx)
+	events   []event
+	next     map[int]*messagequeue.Builder // accumulating builder per peer (last seen)
+	inflt    map[int]*messagequeue.Builder // builder of the message parked in SendMsg
+	infltW   map[int]*wire
+	primed   map[int]bool // in-flight message carries a primer request
+	workers  []*worker
 	received map[int]int // id index -> number of `new` requests received for it
 
 	notes chan note
@@ -322,6 +323,41 @@ func (h handlerWrap) AllocateAndBuildMessage(p peer.ID, size uint64, fn func(*me
 	})
 }
 
+// mgrWrap: queryexecutor.Manager -> the real response manager; a request whose block-hook plan
+// contains 'F' parks its executor between its last transaction and FinishTask (so that the script
+// can have the message notifications handled before the task is handed back)
+type mgrWrap struct{ e *engine }
+
+func (m mgrWrap) StartTask(task *peertask.Task, p peer.ID, ch chan<- queryexecutor.ResponseTask) {
+	m.e.rm.StartTask(task, p, ch)
+}
+func (m mgrWrap) GetUpdates(id graphsync.RequestID, ch chan<- []gsmsg.GraphSyncRequest) {
+	m.e.rm.GetUpdates(id, ch)
+}
+func (m mgrWrap) FinishTask(task *peertask.Task, p peer.ID, err error) {
+	e := m.e
+	id := e.idIndex(task.Topic.(graphsync.RequestID))
+	e.mu.Lock()
+	w := e.workerFor(id)
+	park := false
+	if w != nil {
+		for _, c := range e.cfgs {
+			if c.id == id && c.parkFinish {
+				park = true
+			}
+		}
+	}
+	e.mu.Unlock()
+	if park {
+		e.notes <- note{kind: "prefinish", wk: w}
+		select {
+		case <-w.release:
+		case <-e.ctx.Done():
+		}
+	}
+	e.rm.FinishTask(task, p, err)
+}
+
 // assemblerWrap: responsemanager.ResponseAssembler -> the real assembler with wrapped subscribers
 type assemblerWrap struct{ e *engine }
 
@@ -343,7 +379,7 @@ func (s *subWrap) OnClose(t notifications.Topic) {
 
 // ---------------------------------------------------------------- construction
 
-func newEngine(npeers int, limit uint64) *engine {
+func newEngine(npeers int, limit uint64, maxPerPeer int) *engine {
 	ctx, cancel := context.WithCancel(context.Background())
 	e := &engine{ctx: ctx, cancel: cancel, npeers: npeers, limit: limit,
 		idOf: map[graphsync.RequestID]int{}, byRoot: map[cid.Cid]*reqCfg{}, byCid: map[cid.Cid][2]int{},
@@ -370,9 +406,13 @@ func newEngine(npeers int, limit uint64) *engine {
 
 	// static, total orders so that PopTasks is a function of the queue content: peers with poppable
 	// work first, then by peer index; tasks by priority, then by request-id index
+	ready := func(t *peertracker.PeerTracker) bool {
+		st := t.Stats()
+		return st.NumPending > 0 && !t.IsFrozen() && (maxPerPeer == 0 || st.NumActive < maxPerPeer)
+	}
 	peerCmp := func(a, b *peertracker.PeerTracker) bool {
-		ra := a.Stats().NumPending > 0 && !a.IsFrozen()
-		rb := b.Stats().NumPending > 0 && !b.IsFrozen()
+		ra := ready(a)
+		rb := ready(b)
 		if ra != rb {
 			return ra
 		}
@@ -384,7 +424,12 @@ func newEngine(npeers int, limit uint64) *engine {
 		}
 		return e.idIndex(a.Topic.(graphsync.RequestID)) < e.idIndex(b.Topic.(graphsync.RequestID))
 	}
-	e.tq = taskqueue.NewTaskQueue(ctx, peertaskqueue.PeerComparator(peerCmp), peertaskqueue.TaskComparator(taskCmp))
+	ptqopts := []peertaskqueue.Option{peertaskqueue.PeerComparator(peerCmp), peertaskqueue.TaskComparator(taskCmp)}
+	if maxPerPeer > 0 {
+		// as impl.New does for MaxInProgressIncomingRequestsPerPeer
+		ptqopts = append(ptqopts, peertaskqueue.MaxOutstandingWorkPerPeer(maxPerPeer))
+	}
+	e.tq = taskqueue.NewTaskQueue(ctx, ptqopts...)
 
 	po := persistenceoptions.New()
 	reqHooks := hooks.NewRequestHooks(po)
@@ -415,7 +460,7 @@ func newEngine(npeers int, limit uint64) *engine {
 
 	e.rm = responsemanager.New(ctx, lsys, assemblerWrap{e}, processing, reqHooks, updHooks, completed, cancelled,
 		blockSent, netErr, e.conn, 0, nil, e.tq)
-	e.qe = queryexecutor.New(ctx, e.rm, blockHooks, updHooks)
+	e.qe = queryexecutor.New(ctx, mgrWrap{e}, blockHooks, updHooks)
 	e.rm.Startup()
 	return e
 }
